@@ -367,32 +367,100 @@ func (lg *ledger) callObligations(c *ssa.Call, blk *ssa.BasicBlock, mk func(stri
 
 // sliceable: Value.Slice panics on an array that is not addressable.
 func (lg *ledger) sliceable(v ssa.Value, blk *ssa.BasicBlock) (bool, string) {
-	one := func(x ssa.Value, from, to *ssa.BasicBlock) bool {
-		ctx := &proofCtx{visited: map[string]bool{}, done: map[string]string{}, failed: map[string]bool{}, nilPhis: map[*ssa.Phi]bool{}}
-		// (together with the separate obligation kind in {Array,Slice,String}) not-an-array suffices
-		for _, p := range []pred{{kind: pKindIn, v: x, kinds: ^uint64(0) &^ (1 << kArray)}, {kind: pCanAddr, v: x}} {
-			if to != nil {
-				if ok, _ := lg.proveEdge(p, from, to, ctx); ok {
-					return true
+	if lg.sliceableAt(v, blk, nil, 0) {
+		return true, "not an array, or addressable (on every way the value can take)"
+	}
+	return false, "an array held by value may reach Slice"
+}
+
+// sliceableAt: at the end of block from (on the edge from->to when to is given) the value is not
+// an array, or is addressable. Followed through phis (every input), through the result of a
+// module function (every return), through a parameter (every static call site), and -- when no
+// single fact covers all ways into a block -- separately on each incoming edge.
+func (lg *ledger) sliceableAt(x ssa.Value, from, to *ssa.BasicBlock, depth int) bool {
+	if depth > 6 {
+		return false
+	}
+	ctx := &proofCtx{visited: map[string]bool{}, done: map[string]string{}, failed: map[string]bool{}, nilPhis: map[*ssa.Phi]bool{}}
+	// (together with the separate obligation kind in {Array,Slice,String}) not-an-array suffices
+	for _, p := range []pred{{kind: pKindIn, v: x, kinds: ^uint64(0) &^ (1 << kArray)}, {kind: pCanAddr, v: x}} {
+		if to != nil {
+			if ok, _ := lg.proveEdge(p, from, to, ctx); ok {
+				return true
+			}
+		} else if ok, _ := lg.proveIn(p, from, ctx); ok {
+			return true
+		}
+	}
+	switch y := x.(type) {
+	case *ssa.Phi:
+		for i, e := range y.Edges {
+			if !lg.sliceableAt(e, y.Block().Preds[i], y.Block(), depth+1) {
+				return false
+			}
+		}
+		return true
+	case *ssa.Call:
+		g := y.Call.StaticCallee()
+		if g == nil || len(g.Blocks) == 0 || !inModule(g) || g == lg.fn || g.Signature.Results().Len() != 1 {
+			return false
+		}
+		lgG := newLedger(lg.w, g)
+		n := 0
+		for _, b := range g.Blocks {
+			r, isRet := b.Instrs[len(b.Instrs)-1].(*ssa.Return)
+			if !isRet || len(r.Results) != 1 {
+				continue
+			}
+			n++
+			if !lgG.sliceableAt(r.Results[0], b, nil, depth+1) {
+				return false
+			}
+		}
+		return n > 0
+	case *ssa.Parameter:
+		idx := -1
+		for i, q := range lg.fn.Params {
+			if q == y {
+				idx = i
+			}
+		}
+		// a fact of this function about the parameter, one incoming edge at a time
+		if to == nil && len(from.Preds) > 1 {
+			all := true
+			for _, pr := range from.Preds {
+				if !lg.sliceableAt(x, pr, from, depth+1) {
+					all = false
 				}
-			} else if ok, _ := lg.proveIn(p, from, ctx); ok {
+			}
+			if all {
 				return true
 			}
 		}
-		return false
-	}
-	if one(v, blk, nil) {
-		return true, "not an array, or addressable"
-	}
-	if phi, ok := v.(*ssa.Phi); ok {
-		for i, e := range phi.Edges {
-			if !one(e, phi.Block().Preds[i], phi.Block()) {
-				return false, "an array held by value may reach Slice"
+		sites := lg.w.staticCallSites(lg.fn)
+		if idx < 0 || len(sites) == 0 {
+			return false
+		}
+		for _, s := range sites {
+			if idx >= len(s.Common().Args) {
+				return false
+			}
+			l2 := newLedger(lg.w, s.Parent())
+			if !l2.sliceableAt(s.Common().Args[idx], s.Block(), nil, depth+1) {
+				return false
 			}
 		}
-		return true, "every phi input is a slice/string or an addressable array"
+		return true
 	}
-	return false, "an array held by value may reach Slice"
+	if to == nil && len(from.Preds) > 1 {
+		for _, pr := range from.Preds {
+			if !lg.sliceableAt(x, pr, from, depth+1) {
+				return false
+			}
+		}
+		return true
+	}
+	return false
 }
 
 // variadicElems: the values stored into the array behind a variadic slice argument.
